@@ -240,3 +240,9 @@ Definition all_hit_ids (p : params) (fs : list frac) : list ID := concat (map (h
 (* the single ordered list every page is cut from *)
 Definition global_order (p : params) (fs : list frac) : list ID := norm (p_order p) (all_hit_ids p fs).
 Definition spec_ids (p : params) (fs : list frac) : list ID := firstn (p_limit p) (global_order p fs).
+
+(* bucket counts of a list of IDs (what a histogram that counts exactly these IDs looks like) *)
+Definition ids_hist (interval : N) (ids : list ID) : hist :=
+  if (0 <? interval)%N
+  then fold_left (fun h i => hist_add (bucket (mid i) interval) 1 h) ids []
+  else [].
